@@ -57,6 +57,11 @@ def gen_c10(seed, count):
         c.poll()
         if r.random() < 0.1:
             c.ev((0, 1), (0, 2), (0, 1000), (0, 1000), (0, 1))
+        elif r.random() < 0.25:
+            # transports on which a write takes time (script kinds 4 / 5): connect's five calls are healthy, then slow and
+            # ordinary calls are mixed
+            c.ev(*([(0, 1000)] * 5 + [r.choice([(0, 1000), (0, 1000), (0, 2), (5, r.choice(interesting)), (4, r.choice(interesting))])
+                                       for _ in range(r.randint(3, 30))]))
         out.append(c.line())
     return out
 
@@ -330,6 +335,30 @@ def gen_c15(seed, count):
             amounts = [1, 2, 3, 5, 1000, 1000]
         c.ev(*[(0, r.choice(amounts)) for _ in range(r.randint(50, 1500))])
         out.append((a, c.line(), {'kind': 'chunking'}))
+        if idx % 6 == 0:
+            # time passes inside the first write of a queued packet (script kinds 5 / 4: the write takes `d` ms and then
+            # accepts everything / one byte): the two runs see the same clock and differ only in how much the transport
+            # takes per call, while a PINGREQ falls due in the middle of the packet
+            ka = r.choice([1, 2, 3])
+            d = r.choice([ka * 500, ka * 500 + 1, ka * 700, ka * 1000, ka * 1000 + 300])
+            def prog(kind, frag):
+                c = Case(rx=64, tx=r2.choice([64, 128]), ka=ka)
+                c.connect(connack(0, 0, []))
+                q = r2.choice([1, 1, 2])
+                if r2.random() < 0.3:
+                    c.subscribe(((b'f/a', 1),))
+                else:
+                    c.publish(b'data', bytes(r2.randrange(256) for _ in range(r2.randint(0, 20))), qos=q)
+                c.publish(b'next', b'x', qos=r2.choice([0, 1]))
+                c.drive()
+                c.ev(*([(0, 1000)] * 5 + [(kind, d)] + frag))
+                return c.line()
+            st = r.getrandbits(32)
+            r2 = random.Random(st)
+            a = prog(5, [])
+            r2 = random.Random(st)
+            b = prog(4, [(0, r.choice([1, 2, 3])) for _ in range(200)])
+            out.append((a, b, {'kind': 'slow first write'}))
     return out
 
 
